@@ -101,7 +101,7 @@ func twoPeers(w *world) (cS, cD *mconn) {
 }
 
 func runDataCase(t *testing.T, dc dataCase) (res *histResult) {
-	res = &histResult{classes: map[string]int{}}
+	res = &histResult{classes: map[string]int{}, soft: map[string]int{}}
 	res.bubble = run.Bubble(t, func(t *testing.T) {
 		cfg := baseCfg()
 		cfg.LimitData, cfg.Buf, cfg.LimitDur = dc.Limit, dc.Buf, dc.Dur
@@ -176,7 +176,7 @@ type durCase struct {
 }
 
 func runDurCase(t *testing.T, dc durCase) (res *histResult) {
-	res = &histResult{classes: map[string]int{}}
+	res = &histResult{classes: map[string]int{}, soft: map[string]int{}}
 	res.bubble = run.Bubble(t, func(t *testing.T) {
 		cfg := baseCfg()
 		cfg.LimitDur, cfg.Limited, cfg.Buf = dc.Dur, dc.Limited, 256
